@@ -18,6 +18,7 @@ import BR.Model.Arm
 import BR.Model.IK
 import BR.Model.Urdf
 import BR.Model.Dyn
+import BR.Model.SP
 
 namespace BR.Driver
 
@@ -439,6 +440,202 @@ def handle (fn : String) (a : List Float) : Option (List Float) :=
 
 end IKIO
 
+
+namespace SPIO
+open BR.SP BR.MR MRIO
+
+def takeN (n : Nat) (l : List Float) : Option (List Float × List Float) :=
+  if l.length < n then none else some (l.take n, l.drop n)
+
+def v3s : Nat → List Float → Option (List (V3 Float) × List Float)
+  | 0, r => some ([], r)
+  | k + 1, r => do
+    let (v, r) ← v3 r
+    let (vs, r) ← v3s k r
+    some (v :: vs, r)
+
+def legs : Nat → List Float → Option (List (Leg Float) × List Float)
+  | 0, r => some ([], r)
+  | k + 1, r => do
+    let (b, r) ← v3 r
+    let (t, r) ← v3 r
+    let (ls, r) ← legs k r
+    some (⟨b, t⟩ :: ls, r)
+
+def sols : Nat → List Float → Option (List (Sol Float) × List Float)
+  | 0, r => some ([], r)
+  | k + 1, r => match r with
+    | kind :: r => do
+      let (x, r) ← v6 r
+      match r with
+      | flag :: r => do
+        let (ss, r) ← sols k r
+        some ((if kind == 1 then Sol.raph x (flag != 0) else Sol.fsolve x) :: ss, r)
+      | [] => none
+    | [] => none
+
+def oracle (r : List Float) : Option (List (Sol Float) × List Float) :=
+  match r with
+  | n :: r => sols n.toUInt64.toNat r
+  | [] => none
+
+def lists6 : Nat → List Float → Option (List (List Float) × List Float)
+  | 0, r => some ([], r)
+  | k + 1, r => do
+    let (L, r) ← takeN 6 r
+    let (Ls, r) ← lists6 k r
+    some (L :: Ls, r)
+
+def obs (ok : Bool) (verdict : Float) (s : St Float) (left : Nat) : List Float :=
+  [if ok then 1 else 0, verdict] ++ oT4 s.Tb 1 ++ oT4 s.Tt 1 ++ s.lens ++ s.bs.flatMap oV3 ++ s.ts.flatMap oV3 ++
+    oT4 s.rel 1 ++ [if s.repaired then 1 else 0, left.toFloat]
+
+def b2f (b : Bool) : Float := if b then 1 else 0
+
+/-- reads one operation of a history -/
+def readOp (r : List Float) : Option (Op Float × List Float) :=
+  match r with
+  | code :: r =>
+    match code.toUInt64.toNat with
+    | 1 => do
+      let (Tt, r) ← t4 r
+      let (o, r) ← oracle r
+      some (Op.ik Tt o, r)
+    | 2 => do
+      let (L, r) ← takeN 6 r
+      match r with
+      | rev :: prot :: r => do
+        let (o, r) ← oracle r
+        some (Op.fk L (rev != 0) (prot != 0) o, r)
+      | _ => none
+    | 3 => do
+      let (T, r) ← t4 r
+      let (o, r) ← oracle r
+      some (Op.move T o, r)
+    | 4 => match r with
+      | rot :: r => do
+        let (o, r) ← oracle r
+        some (Op.spin rot o, r)
+      | [] => none
+    | 5 => do
+      let (o, r) ← oracle r
+      some (Op.validate o, r)
+    | 6 => some (Op.validateDN, r)
+    | 7 => match r with
+      | prot :: r => do
+        let (o, r) ← oracle r
+        some (Op.invJac (prot != 0) o, r)
+      | [] => none
+    | 8 => match r with
+      | minDev :: k :: r => do
+        let (Ls, r) ← lists6 k.toUInt64.toNat r
+        let (o, r) ← oracle r
+        some (Op.randomPos minDev Ls o, r)
+      | _ => none
+    | 9 => match r with
+      | a :: b :: c :: d :: r => some (Op.switches (a != 0) (b != 0) (c != 0) (d != 0), r)
+      | _ => none
+    | 10 => match r with
+      | m :: r => some (Op.mode m.toUInt64.toNat, r)
+      | _ => none
+    | _ => none
+  | [] => none
+
+/-- runs the operations of a history through `SP.step`; one observation block per operation -/
+partial def runOps (p : Par Float) (s : St Float) (n : Nat) (r : List Float) (acc : List Float) : Option (List Float) :=
+  match n with
+  | 0 => some acc
+  | n + 1 => do
+    let (op, r) ← readOp r
+    match step p s op with
+    | some (v, s', left) =>
+      let vf : Float := match v with | some true => 1 | some false => 0 | none => -1
+      runOps p s' n r (acc ++ obs true vf s' left)
+    | none => runOps p s n r (acc ++ obs false (-1) s 0)
+
+def exitCode : Exit → Float
+  | Exit.residual => 0
+  | Exit.smallStep => 1
+  | Exit.budget => 2
+
+def handle (fn : String) (a : List Float) : Option (List Float) :=
+  match fn with
+  | "sp.ik" => do          -- Tb16 Tt16 legs36 -> lens6 bs18 ts18
+    let (Tb, r) ← t4 a
+    let (Tt, r) ← t4 r
+    let (ls, _) ← legs 6 r
+    let res := spIK Tb Tt ls
+    some (res.map (·.1) ++ res.flatMap (fun x => oV3 x.2.1) ++ res.flatMap (fun x => oV3 x.2.2))
+  | "sp.invjac" => do      -- bs18 ts18 -> rows 36
+    let (bs, r) ← v3s 6 a
+    let (ts, _) ← v3s 6 r
+    some ((invJac bs ts).flatMap oV6)
+  | "sp.sumact" => do      -- bs18 ts18 f6 -> wrench6
+    let (bs, r) ← v3s 6 a
+    let (ts, r) ← v3s 6 r
+    let (f, _) ← takeN 6 r
+    some (oV6 (sumActuatorWrenches bs ts f))
+  | "sp.rowsT" => do       -- rows36 f6 -> wrench6
+    let rec rows : Nat → List Float → Option (List (V6 Float) × List Float)
+      | 0, r => some ([], r)
+      | k + 1, r => do
+        let (v, r) ← v6 r
+        let (vs, r) ← rows k r
+        some (v :: vs, r)
+    let (rs, r) ← rows 6 a
+    let (f, _) ← takeN 6 r
+    some (oV6 (applyRowsT rs f))
+  | "sp.res" => do         -- guess6 legs36 L6 -> residuals 6, Σ|f|
+    let (g, r) ← v6 a
+    let (ls, r) ← legs 6 r
+    let (L, _) ← takeN 6 r
+    let f := List.zipWith (fkRes g.a (matrixExp3 (hat g.b))) ls L
+    some (f ++ [sumAbs f])
+  | "sp.raph" => do        -- L6 guess6 legs36 maxIter tolF tolA lmin -> guess6 iters exit
+    let (L, r) ← takeN 6 a
+    let (g, r) ← v6 r
+    let (ls, r) ← legs 6 r
+    match r with
+    | [mx, tf, ta, lmin] =>
+      let (g', it, e) := raphson gaussSolve ls L tf ta lmin mx.toUInt64.toNat 0 g
+      some (oV6 g' ++ [it.toFloat, exitCode e])
+    | _ => none
+  | "sp.corrected" => do   -- lmin lmax safety lens6 -> corrected lens6
+    match a with
+    | lmin :: lmax :: safety :: r =>
+      let (L, _) ← takeN 6 r
+      some (correctedLens { lmin := lmin, lmax := lmax, safety := safety, nominalH := 0, rotLimit := 0, deflMax := 0 } L)
+    | _ => none
+  | "sp.angles" => do      -- Tb16 Tt16 legs36 homeB18 homeT18 -> 12 angles
+    let (Tb, r) ← t4 a
+    let (Tt, r) ← t4 r
+    let (ls, r) ← legs 6 r
+    let (hb, r) ← v3s 6 r
+    let (ht, _) ← v3s 6 r
+    let s0 : St Float := { legs := ls, homeB := hb, homeT := ht, Tb := Tb, Tt := Tt, bs := [], ts := [], lens := [],
+                           rel := T4.one, set0 := false, set1 := false, set2 := false, set3 := false, fkMode := 1, repaired := false }
+    some (jointAngles (ikP s0 Tt Tb))
+  | "sp.hist" => do        -- par6 legs36 homeB18 homeT18 Tb16 Tt16 set4 fkMode nops ops... -> observation blocks
+    match a with
+    | lmin :: lmax :: safety :: nh :: rl :: dm :: r =>
+      let p : Par Float := { lmin := lmin, lmax := lmax, safety := safety, nominalH := nh, rotLimit := rl, deflMax := dm }
+      let (ls, r) ← legs 6 r
+      let (hb, r) ← v3s 6 r
+      let (ht, r) ← v3s 6 r
+      let (Tb, r) ← t4 r
+      let (Tt, r) ← t4 r
+      match r with
+      | a0 :: a1 :: a2 :: a3 :: m :: nops :: r =>
+        let s0 : St Float := { legs := ls, homeB := hb, homeT := ht, Tb := Tb, Tt := Tt, bs := [], ts := [], lens := [],
+                               rel := T4.one, set0 := a0 != 0, set1 := a1 != 0, set2 := a2 != 0, set3 := a3 != 0,
+                               fkMode := m.toUInt64.toNat, repaired := false }
+        runOps p (ikP s0 Tt Tb) nops.toUInt64.toNat r []
+      | _ => none
+    | _ => none
+  | _ => none
+
+end SPIO
+
 /-- stateful requests; `none` = not a stateful request -/
 def handleState (st : DState) (fn : String) (args : List String) : Option (DState × String) :=
   match fn with
@@ -523,13 +720,14 @@ def handle (fn : String) (args : List String) : String :=
           toString (obstruction2_gen a b c d e f g h i j k l m n o p q r)
       | _ => "bad-op"
   | _ =>
-    if fn.startsWith "mr." || fn.startsWith "scr." || fn.startsWith "hlp." || fn.startsWith "ik." || fn.startsWith "urdf." || fn.startsWith "dyn." then
+    if fn.startsWith "mr." || fn.startsWith "scr." || fn.startsWith "hlp." || fn.startsWith "ik." || fn.startsWith "urdf." || fn.startsWith "dyn." || fn.startsWith "sp." then
       match allSome (args.map parseFloat) with
       | some fl => match (if fn.startsWith "mr." then MRIO.handle fn fl
                           else if fn.startsWith "scr." then ScrIO.handle fn fl
                           else if fn.startsWith "ik." then IKIO.handle fn fl
                           else if fn.startsWith "urdf." then UrdfIO.handle fn fl
-                          else if fn.startsWith "dyn." then DynIO.handle fn fl else HlpIO.handle fn fl) with
+                          else if fn.startsWith "dyn." then DynIO.handle fn fl
+                          else if fn.startsWith "sp." then SPIO.handle fn fl else HlpIO.handle fn fl) with
         | some out => " ".intercalate (out.map fmtFloat)
         | none => "bad-op"
       | none => "bad-op"
